@@ -31,7 +31,7 @@ var c19Sites = []string{
 	RepoModule + "/Builder.NewTsBuilder",
 }
 
-const c19Bad = 6 // keep in step with verifBadInputs
+const c19Bad = 7 // keep in step with verifBadInputs
 
 func C19(c *Ctx) {
 	c.Level = "model_checking"
@@ -90,6 +90,7 @@ var c19BadTexts = []string{
 	"%token A\n%start S\n%%\nS: A T\nT: T A\n%%\n",
 	"%union {\n v int\n}\n%token <v> A\n%type <v> S\n%start S\n%%\nS: A { $$ = $9 }\n%%\n",
 	"%token <",
+	"%union {\n v int\n}\n%token <v> A\n%type <v> S\n%start S\n%%\nS: A { $$ = $0 }\n%%\n",
 }
 
 // c19Native: the same failing inputs through the real CLI with a pre-existing output file.
